@@ -12,6 +12,7 @@ spelling, any SUPERSET of the needed parentheses, implicit products and calls (`
 import Lean
 import Rooc.Proofs.Render
 import Rooc.Proofs.LexSpell
+import Rooc.Proofs.Total
 namespace Rooc.Props.C09
 open Rooc Rooc.Syntax Rooc.Syntax.Doc Rooc.Syntax.Proofs
 
@@ -147,6 +148,18 @@ example : parseToks [.word "trueand", .word "x"] = .error .reject := by
   simp [parseToks, parseFuel, parseExp, collect, optUnary, unRule_word (w := "trueand") (by decide), leaf, wordLeaf,
     collectLoop, binRule, ruleOfTok, Tok.opSpelling, Gen.binaryOpAlts, spells, Gen.opSpellings, prattParse,
     expr, nud, loop, lbp, Gen.booleanWords, isKeyword, Gen.keywords]
+
+/-! ### totality of the parser model -/
+
+/-- **The parser never panics**: the pairs that the PEG rule `exp` hands to pest's Pratt driver are always
+`[prefix] leaf (infix [prefix] leaf)*` with operators that are in the (regenerated) table with the right
+affix, so none of the driver's `panic!` / `expect` sites is reachable — for EVERY token sequence. -/
+theorem parse_never_panics (toks : List Tok) : parseToks toks ≠ .error .panic := parseToks_no_panic toks
+
+/-- **The model is total**: with the fuel `parseToks` passes, every token sequence is answered with a tree or
+with `reject` (never `fuel`, never `panic`). -/
+theorem parse_total (toks : List Tok) : (∃ t, parseToks toks = .ok t) ∨ parseToks toks = .error .reject :=
+  parseToks_total toks
 
 /-! ### from tokens to text -/
 
